@@ -148,7 +148,7 @@ func runHistory(c *Ctx, r *oracle.Report, id string, rng *rand.Rand, kinds []str
 // C10 sequential: one goroutine, maximal reuse of the pooled builder.
 func c10seq(c *Ctx) {
 	installValidator()
-	n := c.N(180, 2600)
+	n := c.N(600, 8000)
 	pairs := map[string]bool{}
 	for i := 0; i < n; i++ {
 		if !c.Mine(i) {
@@ -185,7 +185,7 @@ func c10seq(c *Ctx) {
 // written between phases.
 func c10conc(c *Ctx) {
 	installValidator()
-	n := c.N(24, 240)
+	n := c.N(48, 480)
 	for i := 0; i < n; i++ {
 		if !c.Mine(i) {
 			continue
